@@ -269,4 +269,88 @@ theorem side_alloc_le (xs : List (Nat × Nat)) (A : Nat) (hs : SideSafe xs.lengt
       have := relActual_sum_pos us (us.sum - A) hsl (by omega) hn
       omega
 
+
+/-! ### the other direction: absent slashing and unsolicited transfers only rounding dust is lost -/
+
+/-- re-pricing an amount `a ≤ 10^18` to the rate `u/a` loses less than one base unit -/
+theorem alloc_ge (a u : Nat) (ha : a ≠ 0) (haD : a ≤ D) : u ≤ mulDec a (fromRatio u a) + 1 := by
+  unfold mulDec fromRatio
+  have hD : 0 < D := D_pos
+  have h := lt_div_add_one_mul (u * D) a (Nat.pos_of_ne_zero ha)
+  generalize u * D / a = q at *
+  -- u·D < (q+1)·a  ⇒  (u−1)·D ≤ a·q
+  by_cases hu : u = 0
+  · rw [hu]; exact Nat.zero_le _
+  · have h2 : (u - 1) * D ≤ a * q := by
+      have e1 : (q + 1) * a = a * q + a := by ring
+      have e2 : (u - 1) * D + D = u * D := by
+        have : u - 1 + 1 = u := by omega
+        calc (u - 1) * D + D = (u - 1 + 1) * D := by ring
+          _ = u * D := by rw [this]
+      omega
+    have : u - 1 ≤ a * q / D := (Nat.le_div_iff_mul_le hD).mpr h2
+    omega
+
+/-- a side that arrived exactly (`A = T`): every batch keeps its undelegated amount up to one unit,
+    so the side's allocation falls short of what arrived by at most one unit per batch -/
+theorem side_alloc_ge_gen (xs : List (Nat × Nat)) (T : Nat) (hD : ∀ x ∈ xs, x.1 ≤ D) :
+    (xs.map (fun x => mulDec x.1 x.2)).sum ≤ sideAlloc xs T (0, false) + xs.length := by
+  unfold sideAlloc
+  induction xs with
+  | nil => simp
+  | cons x xs ih =>
+    simp only [List.map_cons, List.sum_cons, List.length_cons]
+    have ih' := ih (fun y hy => hD y (List.mem_cons_of_mem _ hy))
+    have hx := hD x (List.mem_cons_self ..)
+    have one : mulDec x.1 x.2 ≤ mulDec x.1 (newWithdrawRate x.1 x.2 T (0, false)) + 1 := by
+      by_cases ha : x.1 = 0
+      · rw [ha]; unfold mulDec; rw [Nat.zero_mul, Nat.zero_div]; exact Nat.zero_le _
+      · unfold newWithdrawRate
+        have hz : ∀ w, mulDec 0 w = 0 := by intro w; unfold mulDec; rw [Nat.zero_mul, Nat.zero_div]
+        simp only [ha, ne_eq, not_false_eq_true, if_true, hz, not_true_eq_false, if_false,
+          Bool.false_eq_true, Nat.sub_zero]
+        exact alloc_ge x.1 _ ha hx
+    omega
+
+theorem side_alloc_ge (xs : List (Nat × Nat)) (hD : ∀ x ∈ xs, x.1 ≤ D) :
+    sideTotal xs ≤ sideAlloc xs (sideTotal xs) (signedSub (sideTotal xs) (sideTotal xs)) + xs.length := by
+  have hs : signedSub (sideTotal xs) (sideTotal xs) = (0, false) := by
+    unfold signedSub; simp
+  rw [hs]
+  exact side_alloc_ge_gen xs (sideTotal xs) hD
+
+/-- the split of the arrived coins between the two token sides is exact when exactly the expected
+    total arrived (inside the envelope `tot ≤ 10^18`) -/
+theorem split_exact (sT bT : Nat) (hpos : 0 < sT + bT) (hle : sT + bT ≤ D) :
+    mulDec (sT + bT) (D - fromRatio sT (sT + bT)) = bT := by
+  unfold mulDec fromRatio
+  have hD : 0 < D := D_pos
+  have h1 : sT * D / (sT + bT) * (sT + bT) ≤ sT * D := Nat.div_mul_le_self _ _
+  have h2 := lt_div_add_one_mul (sT * D) (sT + bT) hpos
+  have hq : sT * D / (sT + bT) ≤ D := by
+    apply Nat.div_le_of_le_mul
+    have : sT * D ≤ (sT + bT) * D := Nat.mul_le_mul_right D (by omega)
+    exact this
+  generalize sT * D / (sT + bT) = q at *
+  obtain ⟨r, hr⟩ : ∃ r, D = q + r := ⟨D - q, by omega⟩
+  have e : D - q = r := by omega
+  rw [e]
+  -- bT·D ≤ tot·r < bT·D + D
+  have lo : bT * D ≤ (sT + bT) * r := by
+    have e1 : (sT + bT) * D = (sT + bT) * q + (sT + bT) * r := by rw [hr]; ring
+    have e2 : (sT + bT) * D = sT * D + bT * D := by ring
+    have e3 : q * (sT + bT) = (sT + bT) * q := by ring
+    omega
+  have hi : (sT + bT) * r < bT * D + D := by
+    have e1 : (sT + bT) * D = (sT + bT) * q + (sT + bT) * r := by rw [hr]; ring
+    have e2 : (sT + bT) * D = sT * D + bT * D := by ring
+    have e3 : (q + 1) * (sT + bT) = (sT + bT) * q + (sT + bT) := by ring
+    omega
+  have a : bT ≤ (sT + bT) * r / D := (Nat.le_div_iff_mul_le hD).mpr lo
+  have b : (sT + bT) * r / D < bT + 1 := by
+    apply (Nat.div_lt_iff_lt_mul hD).mpr
+    have : (bT + 1) * D = bT * D + D := by ring
+    omega
+  omega
+
 end Krp
